@@ -394,6 +394,62 @@ theorem cov_orders_agree_small (F : Nat) (A B : Nat → M9 ℝ) (C0 : M9 ℝ)
     · simp [Finset.sum_range_succ, qProd, toM_mul, toM_one]
   · simp [Finset.sum_range_succ, qProd, toM_mul, toM_one, bSeq, h0]
 
+/-! ## 5. object reuse, per-call arguments, item-wise = batched (hardening pass) -/
+
+/-- **History independence with a full explicit `init_state`.** When `init_state` carries `pos, rot, vel, cov` and the
+`Rij` key, the frames and the covariance a call returns do not depend on the object's carried buffers at all
+(whatever happened in earlier calls, whatever `reset`). -/
+theorem explicit_init_full_independent (cfg : Cfg ℝ) (st st' : State ℝ) (i : Init ℝ) (c : M9 ℝ)
+    (r : Option (Quat ℝ)) (hc : i.cov = some c) (hr : i.Rij = some r) (fr : Nat → Frame ℝ) (F : Nat) :
+    (call cfg st (some i) fr F).outs = (call cfg st' (some i) fr F).outs ∧
+    (call cfg st (some i) fr F).cov = (call cfg st' (some i) fr F).cov := by
+  simp only [call, hc, hr, and_self]
+
+/-- **Per-call arguments only.** With `reset = True` the result of a call is a function of the constructor state and
+of THIS call's arguments: two objects with the same constructor state give the same result whatever calls (any
+sizes, any arguments) each has served before. -/
+theorem reset_call_history_free (cfg : Cfg ℝ) (hr : cfg.reset = true) (st : State ℝ)
+    (ms ms' : List Nat) (fr0 fr0' : Nat → Frame ℝ) (init : Option (Init ℝ)) (fr : Nat → Frame ℝ) (F : Nat) :
+    let after := fun (l : List Nat) (f : Nat → Frame ℝ) => ((runChunks cfg st f l).getLast?.map (·.st)).getD st
+    call cfg (after ms fr0) init fr F = call cfg (after ms' fr0') init fr F := by
+  have key : ∀ (l : List Nat) (f : Nat → Frame ℝ) (s : State ℝ), ∀ r ∈ runChunks cfg s f l, r.st = s := by
+    intro l
+    induction l with
+    | nil => intro f s r h; simp [runChunks] at h
+    | cons m l ih =>
+      intro f s r h
+      simp only [runChunks, List.mem_cons] at h
+      rcases h with rfl | h
+      · exact call_st_reset cfg s none f m hr
+      · have := ih _ _ r h
+        rw [this, call_st_reset cfg s none f m hr]
+  have aft : ∀ (l : List Nat) (f : Nat → Frame ℝ),
+      ((runChunks cfg st f l).getLast?.map (·.st)).getD st = st := by
+    intro l f
+    cases h : (runChunks cfg st f l).getLast? with
+    | none => rfl
+    | some r => simp only [Option.map_some, Option.getD_some]; exact key l f st r (List.mem_of_getLast? h)
+  simp only [aft]
+
+/-- **Item-wise = batched.** Item `b` of a call on `(B,F,H)` tensors only reads item `b`'s entries: two batches
+(possibly of different batch size) that agree on item `b` give the same result for that item. -/
+theorem item_independent (cfg : Cfg ℝ) (st : State ℝ) (dt gyro acc dt' gyro' acc' : Tens ℝ) (gcov acov : Vec3 ℝ)
+    (b b' : Nat) (hF : dt.lift.F = dt'.lift.F)
+    (hok : rankOk acc.shape dt.shape gyro.shape = rankOk acc'.shape dt'.shape gyro'.shape)
+    (hdt : ∀ f c, dt.lift.at3 b f c = dt'.lift.at3 b' f c)
+    (hg : ∀ f c, gyro.lift.at3 b f c = gyro'.lift.at3 b' f c)
+    (ha : ∀ f c, acc.lift.at3 b f c = acc'.lift.at3 b' f c) :
+    forwardItem cfg st dt gyro acc none gcov acov b = forwardItem cfg st dt' gyro' acc' none gcov acov b' := by
+  unfold forwardItem
+  rw [hok]
+  simp only
+  rw [hF]
+  have : framesOf dt.lift gyro.lift acc.lift (Option.map Tens.lift none) gcov acov b
+      = framesOf dt'.lift gyro'.lift acc'.lift (Option.map Tens.lift none) gcov acov b' := by
+    funext f
+    simp only [framesOf, Tens.vec, hdt, hg, ha, Option.map_none]
+  rw [this]
+
 /-! ## non-vacuity of the hypotheses -/
 
 example : (⟨0.6, 0, 0, 0.8⟩ : Quat ℝ).normSq = 1 := by lie_unfold; norm_num
